@@ -73,4 +73,7 @@ def run(ctx):
     mm.tinv(ctx, "min", 20000 if ctx.thorough() else 6000)
     c = cli_runs(ctx)
     vlib.validate_trace(ctx, "MinOutTrace", c, "CLI min -p s2m|m2s, m 7..28", "reset")
+    many = ctx.path("many.ndjson")
+    vlib.kvh(["trace", "many", ctx.seed, ctx.rundir, 70000, "min"], out=many)
+    vlib.validate_trace(ctx, "FactsTrace", many, "70 000 records from a pool of 12: every s2m line / every m2s region judged (ordinals beyond 2^16, 10 000-record branches)", "manymin")
     ctx.exhaustive = False
